@@ -117,7 +117,15 @@ def driver_verdicts(tier, repo=None):
     qverdicts, qstats = judge.run_judge("TraceQuery", qevents, {"Nil": "Nil"}, tag="trace-driver-q") if qevents else ({}, None)
     revents = [e for h in hists for e in h.get("resolver", [])]
     rverdicts, rstats = judge.run_judge("TraceResolver", revents, {"Nil": "Nil"}, tag="trace-driver-r") if revents else ({}, None)
-    out = {"ops": ops, "verdicts": verdicts, "queries": queries, "qverdicts": qverdicts, "direct": direct, "tlc": [s for s in (stats, qstats, rstats) if s],
+    oevents = [e for h in hists for e in h.get("other", [])]
+    overdicts, ostats = {}, []
+    for module in ("TraceRender", "TraceExport"):
+        evs = [e for m, e in oevents if m == module]
+        if evs:
+            v, st = judge.run_judge(module, evs, {"Nil": "Nil"}, tag="trace-driver-" + module.lower())
+            overdicts.update(v)
+            ostats.append(st)
+    out = {"oevents": oevents, "overdicts": overdicts, "ostats": ostats, "ops": ops, "verdicts": verdicts, "queries": queries, "qverdicts": qverdicts, "direct": direct, "tlc": [s for s in (stats, qstats, rstats) if s],
            "revents": revents, "rverdicts": rverdicts,
            "plan": plan, "histories": len(hists)}
     _dmemo[key] = out
@@ -152,6 +160,30 @@ def classify_driver(res, prop):
                 res.drift += 1
             if not v["chained"]:
                 res.notes.append("event %s does not start in the state the previous event ended in" % i)
+    if prop in ("C09", "C10", "C12", "C13"):
+        for s_ in out["ostats"]:
+            res.add_tlc(dict(s_), transitions=True)
+        byo = {e["id"]: (m, e) for m, e in out["oevents"]}
+        n = 0
+        for i, (m, e) in byo.items():
+            mine = (prop == "C09" and m == "TraceRender") or (prop == "C10" and e.get("q") == "dict_export") or \
+                   (prop == "C12" and e.get("kind") == "dot") or (prop == "C13" and e.get("kind") == "mermaid")
+            if m == "raised":
+                mine = {"render": "C09", "dict": "C10", "graph": "C12"}.get(e["kind"]) == prop or (e["kind"] == "graph" and prop == "C13")
+                if mine:
+                    res.violation({"property": prop, "module": "trace-driver", "why": "%s on live objects raised %s" % (e["kind"], e["raised"]), "event": e})
+                continue
+            if not mine:
+                continue
+            n += 1
+            if prop in out["overdicts"].get(i, set()):
+                if prop == "C12" and "stop_edge_only" in out["overdicts"][i]:
+                    res.add_known("C12-stop_edge", 1, {"driver_event": i})
+                    continue
+                res.violation({"property": prop, "module": "trace-driver", "why": "%s on live objects after a mutation history violates %s (judged by TLC)" % (e.get("q", "render"), prop),
+                               "event": e})
+        res.trace_events += n
+        return
     if prop in ("C07", "C08"):
         mine = [e for e in out["revents"] if e["q"] == ("get" if prop == "C07" else "glob")]
         res.trace_events += len(mine)
